@@ -220,7 +220,9 @@ def build_algorithm(case, order):
     # observation source for the bandit algorithms
     if info.get("bandit"):
         ds = alg.problem.dataset
-        if case["variant"] == "Auer-emp" or case["obs_mode"] == "real":
+        if case.get("script") is not None:
+            alg.problem = runstubs.ScriptedProblem(ds, case["script"])
+        elif case["variant"] == "Auer-emp" or case["obs_mode"] == "real":
             if case.get("hetero") is not None:
                 alg.problem = runstubs.HeteroscedasticProblem(ds, case["hetero"], case["seed"])
         else:
@@ -416,7 +418,7 @@ def run_case(case, order, mon, max_extra_steps=3, watch_updates=False):
 def case_public(case):
     """JSON-friendly summary for samples / replay."""
     keep = ["variant", "cone", "W", "m", "K", "mu", "eps", "delta", "noise_var", "contraction", "batch", "ds_family", "scale",
-            "model", "stub_mode", "obs_mode", "costs", "budget", "rho_s", "rho_g", "seed", "max_rounds", "hetero", "in_dim", "depth_max", "n_train", "fixed_boxes", "L"]
+            "model", "stub_mode", "obs_mode", "costs", "budget", "rho_s", "rho_g", "seed", "max_rounds", "hetero", "in_dim", "depth_max", "n_train", "fixed_boxes", "L", "script"]
     return {k: case.get(k) for k in keep if k in case}
 
 
@@ -559,7 +561,7 @@ def replay_runs(mon, rec, checker):
     case, order = case_from_public({k: v for k, v in c.items() if k in (
         "variant", "cone", "W", "m", "K", "mu", "eps", "delta", "noise_var", "contraction", "batch", "ds_family", "scale", "model",
         "stub_mode", "obs_mode", "costs", "budget", "rho_s", "rho_g", "seed", "max_rounds", "hetero", "in_dim", "depth_max", "n_train",
-        "fixed_boxes", "L")})
+        "fixed_boxes", "L", "script")})
     if case["variant"] == "VOGP_AD":
         tr = run_ad_case(case, order, mon)
     else:
